@@ -47,6 +47,12 @@ def _profiles_for(pid, tier):
                           weights=[1, 2] if thorough else [1], hints=["normal"]))
         edge.append(P("s3fifo-2shards", "s3fifo", shards=2, hash={1: 0, 2: 2, 3: 1}, init_caps=[2, 4],
                       caps=[0, 2], ops=ops, phantoms=[False, True], max_steps=steps, weights=[1]))
+        # what is handed to the pipe must not depend on whether an event listener is installed: a second cache
+        # without listener runs in lockstep and ITS hand-offs are the ones compared with the specification
+        edge.append(P("fifo-nolistener", "fifo", ops=ops, phantoms=[False, True], max_steps=steps, weights=[1],
+                      hints=["normal"], shadow_no_listener=True))
+        edge.append(P("lru-2shards-nolistener", "lru", shards=2, hash={1: 0, 2: 2, 3: 1}, init_caps=[2, 4],
+                      caps=[0, 2], ops=ops, phantoms=[False], max_steps=steps, weights=[1], shadow_no_listener=True))
         for a in ALGOS:
             sim.append(P(f"{a}-sim", a, keys=[1, 2, 3, 4, 5], hash={1: 0, 2: 0, 3: 1, 4: 2, 5: 3}, shards=2,
                          weights=[1, 2], phantoms=[False, True], caps=[0, 2, 5], init_caps=[3, 6], max_ins=30,
@@ -113,10 +119,17 @@ def _profiles_for(pid, tier):
         edge.append(P("lru-deep-handles", "lru", keys=[1, 2], hash={1: 0, 2: 1}, weights=[1], hints=["normal"],
                       ops=["insert", "get", "clone", "drop"], max_held=2, max_ins=4, max_steps=7 if thorough else 6,
                       init_caps=[1], caps=[]))
+        # the same handle rules through the hit path of get_or_fetch (a lookup of a resident key by the fetch API)
+        for a in ("lru", "lfu", "s3fifo"):
+            edge.append(P(f"{a}-handles-fetchhit", a, ops=["insert", "get", "clone", "drop", "remove"], max_steps=steps,
+                          weights=[1], hints=["normal"], max_held=3, init_caps=[2], caps=[], lookup_via_fetch=True))
         for a in ALGOS:
             sim.append(P(f"{a}-sim", a, keys=[1, 2, 3, 4, 5], hash={1: 0, 2: 0, 3: 1, 4: 2, 5: 3}, shards=1,
                          weights=[1, 2], caps=[1, 3, 6], init_caps=[3, 5], max_ins=30, max_steps=40, max_held=4,
                          ops=ops))
+        sim.append(P("lru-fetchhit-sim", "lru", keys=[1, 2, 3, 4, 5], hash={1: 0, 2: 0, 3: 1, 4: 2, 5: 3}, shards=1,
+                     weights=[1, 2], caps=[1, 3, 6], init_caps=[3, 5], max_ins=30, max_steps=40, max_held=4,
+                     ops=ops, lookup_via_fetch=True))
     else:
         raise core.ToolError(f"no memory profiles for {pid}")
     return edge, sim
